@@ -39,6 +39,18 @@ unsafe impl OpCode for CloseFile {
     fn call_blocking(&mut self, control: &mut Self::Control) -> io::Result<usize> {
         self.call(control)
     }
+
+    unsafe fn set_result(&mut self, _: &mut Self::Control, res: &io::Result<usize>, _: &Extra) {
+        if let Err(e) = res
+            && e.raw_os_error() == Some(libc::ECANCELED)
+        {
+            // The kernel cancelled the request before running it (the close had
+            // been queued to a worker because the file has a `flush` method): the
+            // fd is still open and nobody else owns it.
+            // SAFETY: the fd has not been closed, and it is dropped only here.
+            unsafe { ManuallyDrop::drop(&mut self.fd) };
+        }
+    }
 }
 
 unsafe impl<S: AsFd> OpCode for TruncateFile<S> {
